@@ -272,6 +272,11 @@ func checkDXF(ctx *Ctx, r *Report) {
 		r.check("X2", shortFn(fn)+"|layer-Lines", fn.Pos(), okL, fmt.Sprintf("layers selected before/while drawing: %v", layers))
 	}
 	r.Counts["dxf_line_sites"] = n
+	if ctx.ssaFunc("render", "verifCtlDXFSwapped") != nil {
+		r.expectControl("X2", "verifCtlDXFSwapped|line-arguments")
+	} else if !r.controlSkipped() {
+		r.undecided("X2", "control", 0, "positive control missing")
+	}
 	// NewDXF adds the layer
 	if fn := ctx.ssaFunc("render", "NewDXF"); fn != nil {
 		ev := newEval(ctx)
